@@ -1,6 +1,7 @@
 """Recording, evidence files, replays, known findings, exit codes."""
 import hashlib
 import json
+import logging
 import multiprocessing as mp
 import os
 import subprocess
@@ -12,6 +13,8 @@ import z3
 
 VERIF = os.path.dirname(os.path.dirname(os.path.abspath(__file__)))
 EXIT_OK, EXIT_VIOLATION, EXIT_HARNESS = 0, 1, 3
+_LOG = logging.getLogger("cirbo")
+_LOG.addHandler(logging.NullHandler())
 
 
 class Partial:
@@ -36,6 +39,10 @@ class Partial:
     def case(self, desc, nontrivial=True, sample=None):
         self.cases += 1
         h = hashlib.sha1(repr(desc).encode()).hexdigest()[:16]
+        # environment dimension: the library must behave the same whatever the logging level, so about half
+        # of the cases (chosen by the case's own hash) run with debug logging enabled for the package;
+        # replays restore the level that was in effect
+        _LOG.setLevel(logging.DEBUG if int(h[-1], 16) % 2 else logging.WARNING)
         self.case_hashes.add(h)
         if nontrivial:
             self.nontrivial_hashes.add(h)
@@ -79,7 +86,7 @@ class Partial:
             self.note("a canary stayed silent (counted in canaries.run/fired)")
 
     def violation(self, key, what, replay_src):
-        self.violations.append({"key": key, "what": what, "replay": replay_src})
+        self.violations.append({"key": key, "what": what, "replay": replay_src, "loglevel": _LOG.level})
 
     def error(self, text):
         self.errors.append(text)
@@ -166,7 +173,7 @@ class Report(Partial):
             e["key"]: e for e in data.get("findings", []) if e.get("property") == self.pid
         }
 
-    def _write_replay(self, idx, v):
+    def _write_replay(self, idx, v, level=None):
         d = os.path.join(os.environ.get("VERIF_REPLAY_DIR", os.path.join(VERIF, "replays")), self.pid)
         os.makedirs(d, exist_ok=True)
         safe = "".join(ch if ch.isalnum() or ch in "-_." else "_" for ch in v["key"])[:80]
@@ -181,6 +188,7 @@ class Report(Partial):
                f"    os.execve(sys.executable, [sys.executable] + sys.argv, dict(os.environ, PYTHONHASHSEED={hs!r}))\n" if hs is not None else "")
             + f"sys.path.insert(0, {VERIF!r})\n"
             "from vlib import env; env.setup()\n"
+            f"import logging; logging.getLogger('cirbo').setLevel({int(level if level is not None else v.get('loglevel') or 0)})  # logging level the counterexample was found under\n"
         )
         with open(path, "w") as f:
             f.write(header + v["replay"] + "\n")
@@ -206,6 +214,16 @@ class Report(Partial):
         for i, (key, v) in enumerate(sorted(uniq.items())):
             path = self._write_replay(i, v)
             rc, out = self._run_replay(path)
+            if rc != 1:
+                # the level is switched when a case is announced, which some checks do after calling the code:
+                # the counterexample may belong to the other logging level
+                other = logging.WARNING if int(v.get("loglevel") or 0) == logging.DEBUG else logging.DEBUG
+                self._write_replay(i, v, level=other)
+                rc2, out2 = self._run_replay(path)
+                if rc2 == 1:
+                    rc, out = rc2, out2
+                else:
+                    self._write_replay(i, v)
             v["replay_path"], v["replay_rc"] = path, rc
             if rc == 1:
                 if key in known:
